@@ -1131,3 +1131,56 @@ def b_midifile(tier, rnd):
             cases.append((MidiFile([track(x) for x in kinds]),))
     return {"rule": "files of 0..3 tracks, each reset (no data), fresh, one note or 40 events: all 85 combinations",
             "cases": cases}
+
+
+@battery("two_bytes")
+def b_two_bytes(tier, rnd):
+    his = list(range(256))
+    los = [0, 1, 72, 96, 127, 128, 255] + [rnd.randrange(256) for _ in range(3)]
+    return {"rule": "every first byte x 10 second bytes (both time-division kinds)",
+            "cases": [(_mfile(), bytes([h, lo])) for h in his for lo in los]}
+
+
+@battery("file_header_files")
+def b_file_header_files(tier, rnd):
+    import io
+    cases = []
+    for tag in (b"MThd", b"MTrk", b"mthd", b"MThD", b"RIFF", b"\x00\x00\x00\x00"):
+        for size in (0, 5, 6):
+            for fmt in (0, 1, 2, 3, 255, 256, 65535):
+                for ntr in (0, 1, 2, 17, 65535):
+                    for div in (72, 96, 480, 0x7fff, 0x8000, 0xE728, 0xffff):
+                        f = io.BytesIO(b"\x00" + tag + size.to_bytes(4, "big") + fmt.to_bytes(2, "big") +
+                                       ntr.to_bytes(2, "big") + div.to_bytes(2, "big") + b"MTrk\x00\x00\x00\x04\x00\xff\x2f\x00")
+                        f.read(1)
+                        cases.append((_mfile(), GhostFile(f)))
+    return {"rule": "6 tags (one valid) x header sizes 0, 5, 6 x 7 format numbers x 5 track counts x 7 time divisions "
+                    "(ticks and frames-per-second), file positioned at offset 1", "cases": cases}
+
+
+@battery("event_files")
+def b_event_files(tier, rnd):
+    import io
+    cases = []
+    tails = [bytes([rnd.randrange(256) for _ in range(8)]) for _ in range(3)] + [b"\x00" * 8, b"\x7f" * 8]
+    for ec in list(range(0x70, 0x100, 1)):
+        for t in tails:
+            f = io.BytesIO(b"\x00" + bytes([ec]) + t + b"\x00" * 300)
+            f.read(1)
+            cases.append((_mfile(), GhostFile(f)))
+    # meta events with 1-, 2- and 3-byte lengths
+    for meta in (0x03, 0x2f, 0x51, 0x58, 0x59, 0x7f):
+        for length in (0, 1, 3, 127, 128, 200, 16383, 16384, 20000):
+            vl = []
+            n = length
+            vl.append(n & 0x7f)
+            n >>= 7
+            while n:
+                vl.append((n & 0x7f) | 0x80)
+                n >>= 7
+            body = bytes([rnd.randrange(256) for _ in range(length)])
+            f = io.BytesIO(b"\x00\xff" + bytes([meta]) + bytes(reversed(vl)) + body + b"\x00\xff\x2f\x00\x00\x00")
+            f.read(1)
+            cases.append((_mfile(), GhostFile(f)))
+    return {"rule": "every status byte 0x70..0xff x 5 tails; meta events of 6 kinds x 9 data lengths (1- to 3-byte length "
+                    "fields), file positioned at offset 1", "cases": cases}
